@@ -910,7 +910,7 @@ func TestVerif(t *testing.T) {
 			}
 		}
 		// exhaustive enumeration of all schedules up to a length
-		depth := c.N(4, 6)
+		depth := c.N(4, 5)
 		frontier := [][]action{{}}
 		for d := 0; d < depth; d++ {
 			var next [][]action
@@ -945,7 +945,7 @@ func TestVerif(t *testing.T) {
 		c.Res.Extra["exhaustive"] = true
 		c.Res.Extra["exhaustive_depth"] = depth
 		// random longer schedules, extended action by action from what the implementation says is enabled
-		n := c.N(150, 5000)
+		n := c.N(150, 2500)
 		probeDir := filepath.Join(base, "probe")
 		os.MkdirAll(probeDir, 0o755)
 		for i := 0; i < n; i++ {
